@@ -329,8 +329,8 @@ static int ex_region(char *loc, int *beg, int *end)
 		return 0;
 	}
 	if (!*loc) {
-		*beg = xrow;
-		*end = xrow == lbuf_len(xb) ? xrow : xrow + 1;
+		*beg = MAX(0, MIN(xrow, lbuf_len(xb)));
+		*end = *beg == lbuf_len(xb) ? *beg : *beg + 1;
 		return 0;
 	}
 	while (*loc) {
